@@ -276,3 +276,15 @@ package txpool
 //@   props C20
 //@   modifies nothing
 //@   ensures result != nil && fresh(result) && result.seq == seq && result.txs != nil && mapLen(result.txs) == 0 && (forall q uint64 :: !inDom(result.txs, q))
+
+// ---- after a block: the sender's queue advances past the used transaction ----
+
+//@ ghost var GForward int
+
+//@ func mainQueueScheduler.handleTxUsed
+//@   props C20
+//@   requires s != nil
+//@   assume-pre txpool\.mainQueueScheduler\.forward$
+//@   precall mainQueueScheduler\)\.forward$ :: argIs(0, tx.sender) && int(argAs[uint64](1)) == int(tx.seq) + 1
+//@   ensures-local ok ==> GForward >= old(GForward) + 1 || tx.seq == 18446744073709551615
+//@   note a used transaction moves its sender's current sequence number to the one AFTER it (so the successor becomes schedulable and a transaction reusing the sequence number is expired); forward's own preconditions (heap well-formedness after delete) are assumed here
